@@ -259,6 +259,11 @@ func (x *run) op() {
 		if dst == nil || src == nil {
 			return
 		}
+		if c.Draw(4) == 0 {
+			// a source of another implementation: plain Go memory (what every Write of a []byte hands to Set)
+			data := fill([]int{3, 1, 0, 9, 20}[c.Draw(5)], 40+x.step)
+			src = &obj{impl: blob.NewBytes(append([]byte(nil), data...)), root: &mroot{data: data}, n: len(data), valid: true, name: fmt.Sprintf("bytes[%d]", len(data))}
+		}
 		off := x.arg(dst.n)
 		inRange := off >= 0 && off <= dst.n
 		what := fmt.Sprintf("%s.Set(%s, %d) [dst len %d, src len %d]", dst.name, src.name, off, dst.n, src.n)
